@@ -24,6 +24,8 @@ func checkC18(r *Report, p *Program) {
 	informerAcquireRelease(r, p, "R18.5")
 	checkThenAct(r, p, "R18.6")
 	locksReleased(r, p, "R18.7", 10)
+	// the customize manager takes one subscription per related resource and remembers it (shared with C15)
+	relatedInformerMemo(r, p, "R18.8")
 }
 
 // lockDiscipline (A6): all accesses to the selected shared maps hold one common
